@@ -359,6 +359,13 @@ class Scheduler:
             self.task_states[tid] = LocalStatus.KILLED
         except TaskFailedError:
             self.task_states[tid] = LocalStatus.FAILED
+        except Exception:
+            # E.g. the process could not be started (missing working directory)
+            # or the log files could not be written.
+            logger.exception("Task %s failed unexpectedly", name)
+            if proc is not None and proc.returncode is None:
+                await self._gentle_kill(proc)
+            self.task_states[tid] = LocalStatus.FAILED
         else:
             self.task_states[tid] = LocalStatus.COMPLETED
         finally:
